@@ -99,6 +99,17 @@ type World struct {
 	Seen map[string]bool
 	// Opts
 	NoReopen, NoDeleteContainer bool
+	// Avoid lists history classes excluded by construction (recorded findings):
+	//   "mark-nonphysical"  garbage marks only on stored physical objects that are not parents
+	//   "reput-over-mark"   no put of an ID that carries a garbage mark
+	//   "revive"            no revival
+	//   "ts-on-marked"      no tombstone whose target (or a child of it) already carries a garbage mark
+	//   "mark-redundant"    no redundant marks
+	//   "reopen"            no close/open
+	//   "ts-nonphysical"    no tombstone whose target is absent, non-physical or a parent
+	Avoid map[string]bool
+	// Excluded counts actions redirected because of Avoid.
+	Excluded int
 	// OnAdmission, if set, is consulted when model and code disagree on the
 	// admission of a Put: return true if the disagreement is a recorded finding
 	// and the model was switched to follow the code (the put is then replayed).
@@ -107,7 +118,7 @@ type World struct {
 
 // NewWorld creates a world over backend b.
 func NewWorld(cat mm.Catalog, b Backend, ep *stor.Epoch) *World {
-	return &World{Cat: cat, M: mm.New(), B: b, Ep: ep, Seen: map[string]bool{}}
+	return &World{Cat: cat, M: mm.New(), B: b, Ep: ep, Seen: map[string]bool{}, Avoid: map[string]bool{}}
 }
 
 func (w *World) log(f string, a ...any) { w.Ops = append(w.Ops, fmt.Sprintf(f, a...)) }
@@ -147,6 +158,11 @@ func (w *World) DoPut(t *rapid.T, a mm.Addr) {
 		// realistic order only: the nested EC parent must be known first
 		a = mm.Addr{C: a.C, I: r}
 		s = w.Cat.Spec(a)
+	}
+	if w.avoidPut(a, s) {
+		w.Excluded++
+		w.log("skip put %s (excluded class)", s)
+		return
 	}
 	before := w.M.Clone()
 	wasStored := w.M.Stored(a)
@@ -211,6 +227,39 @@ func (w *World) DoPut(t *rapid.T, a mm.Addr) {
 		s, w.Epoch, want, got, err, own, tgt, w.History())
 }
 
+func (w *World) plainPhysical(a mm.Addr) bool {
+	o := w.M.Get(a)
+	return o != nil && o.Phy && w.M.Status(a, w.Epoch).ParentKind == ""
+}
+
+func (w *World) avoidPut(a mm.Addr, s uni.Spec) bool {
+	if w.Avoid["reput-over-mark"] {
+		if w.M.Mark(a) != mm.MarkNone {
+			return true
+		}
+		if ph, ok := mm.ParentHeader(s); ok && w.M.Mark(mm.Addr{C: a.C, I: ph.ID}) != mm.MarkNone {
+			return true
+		}
+	}
+	if s.Kind == uni.Tombstone {
+		ta := mm.Addr{C: a.C, I: s.Target}
+		if w.Avoid["ts-nonphysical"] && !w.plainPhysical(ta) {
+			return true
+		}
+		if w.Avoid["ts-on-marked"] {
+			if w.M.Mark(ta) != mm.MarkNone {
+				return true
+			}
+			for _, k := range w.M.Children(ta) {
+				if w.M.Mark(mm.Addr{C: a.C, I: k}) != mm.MarkNone {
+					return true
+				}
+			}
+		}
+	}
+	return false
+}
+
 // Actions returns the action map for t.Repeat (without the "" invariant).
 func (w *World) Actions() map[string]func(*rapid.T) {
 	put := func(t *rapid.T) { w.DoPut(t, w.drawAddr(t)) }
@@ -244,6 +293,25 @@ func (w *World) Actions() map[string]func(*rapid.T) {
 			ids = dedup(ids)
 		}
 		red := rapid.IntRange(0, 2).Draw(t, "redundant") == 0
+		if red && w.Avoid["mark-redundant"] {
+			red = false
+			w.Excluded++
+		}
+		if w.Avoid["mark-nonphysical"] {
+			var keep []int
+			for _, id := range ids {
+				if w.plainPhysical(mm.Addr{C: c, I: id}) {
+					keep = append(keep, id)
+				}
+			}
+			if len(keep) != len(ids) {
+				w.Excluded++
+			}
+			if ids = keep; len(ids) == 0 {
+				w.log("skip mark (excluded class)")
+				return
+			}
+		}
 		mk := meta.GarbageMarkDefault
 		if red {
 			mk = meta.GarbageMarkRedundant
@@ -307,6 +375,11 @@ func (w *World) Actions() map[string]func(*rapid.T) {
 	}
 	revive := func(t *rapid.T) {
 		a := w.drawAddr(t)
+		if w.Avoid["revive"] {
+			w.Excluded++
+			w.DoPut(t, a)
+			return
+		}
 		var cand []int
 		for i := 0; i < uni.NObjects; i++ {
 			if w.M.MarkedForRemoval(mm.Addr{C: a.C, I: i}) {
@@ -405,7 +478,7 @@ func (w *World) Actions() map[string]func(*rapid.T) {
 			}
 		}
 	}
-	if !w.NoReopen {
+	if !w.NoReopen && !w.Avoid["reopen"] {
 		acts["reopen"] = func(t *rapid.T) {
 			if rapid.IntRange(0, 1).Draw(t, "really") == 0 {
 				reopen(t)
